@@ -61,14 +61,11 @@ def V2Frame.isSigned (f : V2Frame) : Bool := (f.incompat &&& Gen.v2FlagSigned) !
 /-- byte(len(x)) -/
 def lenByte (p : Bytes) : UInt8 := UInt8.ofNat p.length
 
-/-- uint24Encode as written in v2_frame.go -/
-def uint24Encode (x : UInt32) : Bytes := [x.toUInt8, (x >>> 8).toUInt8, (x >>> 16).toUInt8]
-def uint24Decode (a b c : UInt8) : UInt32 := (c.toUInt32 <<< 16) ||| (b.toUInt32 <<< 8) ||| a.toUInt32
-def uint48Encode (x : UInt64) : Bytes :=
-  [x.toUInt8, (x >>> 8).toUInt8, (x >>> 16).toUInt8, (x >>> 24).toUInt8, (x >>> 32).toUInt8, (x >>> 40).toUInt8]
-def uint48Decode (a b c d e f : UInt8) : UInt64 :=
-  (f.toUInt64 <<< 40) ||| (e.toUInt64 <<< 32) ||| (d.toUInt64 <<< 24) |||
-  (c.toUInt64 <<< 16) ||| (b.toUInt64 <<< 8) ||| a.toUInt64
+/-! uint24/uint48 packing: regenerated from pkg/frame/v2_frame.go (TIE-G, G-expr) -/
+abbrev uint24Encode := Gen.uint24Encode
+abbrev uint24Decode := Gen.uint24Decode
+abbrev uint48Encode := Gen.uint48Encode
+abbrev uint48Decode := Gen.uint48Decode
 
 /-- bytes hashed by V1Frame.GenerateChecksum (before the CRC_EXTRA byte) -/
 def V1Frame.crcInput (f : V1Frame) (payload : Bytes) : Bytes :=
